@@ -463,6 +463,8 @@ _K_METHODS = ('hex', 'to01', 'decode', 'encode', 'lower', 'upper', 'replace', 's
 def value_attr(it, v, a, n):
     if isinstance(v, BA):
         return ba_methods(it, v, a, None)
+    if isinstance(v, K) and not hasattr(v.v, a):
+        raise RaiseEx('AttributeError', f'{type(v.v).__name__} object has no attribute {a}', n)
     if isinstance(v, (K, PBits, ListV, DictV, SetV, Sym, Term, PInt, ExcV, Cond)):
         return Bound(v, Native(lambda it_, args, kw, node, _a=a: val_method(it_, args[0], _a, args[1:], kw, node), 'val.' + a))
     return None
